@@ -54,7 +54,8 @@ def run(rep, tier, seed, replay_file=None):
     rep.cov["rule"] = (
         "behaviours = driver schedules of PipelineCtl without stop actions (one per terminal edge of the abstract graph; "
         "thorough: all of <= Depth steps for n<=3,k<=2; random n<=8,k<=4; free-running n<=24,k<=6; RaceReps repetitions per construct of a run whose first advances are concurrent) for map, pp, pfe, worker, "
-        "pbuf, pbufg (the body of ParallelBuffer with a gate in front of the send), split, buffer, merge, gen, multiread, with single and burst releases of the user functions; after every step the real construct runs to quiescence and the "
+        "pbuf, pbufg (the body of ParallelBuffer with a gate in front of the send), split, buffer, merge, gen, multiread, with single and burst releases of the user functions, "
+        "plain inputs and inputs / MergeIterators operands that carry a recorded non-fatal error (AddError; upstream Map in ContinueOnError mode); after every step the real construct runs to quiescence and the "
         "observations are compared with the spec's allowed sets: every user-function call is for an input item not seen "
         "before, every output is f(input item) not output before and allowed (may), the end of an output only when "
         "allowed (eofs), no consumer blocked with nothing held (must), at the end output bag = f(input bag), input order "
